@@ -48,25 +48,7 @@ type c10Diff struct {
 	Text  string
 }
 
-func vWithout(seq []int, drop []int) []int {
-	var res []int
-	for _, r := range seq {
-		if vIndexOf(drop, r) < 0 {
-			res = append(res, r)
-		}
-	}
-	return res
-}
 
-func vMapWithout(m map[int]string, drop []int) map[int]string {
-	res := map[int]string{}
-	for k, v := range m {
-		if vIndexOf(drop, k) < 0 {
-			res[k] = v
-		}
-	}
-	return res
-}
 
 // c10Compare lists the fields of the statement that differ, in a fixed order. Kept revisions, blocked
 // revisions, revert status and mounted revisions are compared modulo the revisions in disc.
@@ -176,67 +158,10 @@ func c10Triggers(kind string) []string {
 	return nil
 }
 
-// c10Gen is the generating alphabet (operations that build prior histories).
-func c10Gen(thorough bool) func(st vState) []vOp {
-	return func(st vState) []vOp {
-		a := st.A
-		if !a.Installed {
-			ops := []vOp{{K: "install"}}
-			if thorough {
-				ops = append(ops, vOp{K: "install", Dv: true, Ch: "other-channel"})
-			}
-			return append(ops, vOp{K: "set-retain", V: "4"}, vOp{K: "set-retain", V: ""})
-		}
-		ci := vIndexOf(a.Seq, a.Cur)
-		ops := []vOp{{K: "refresh-new"}}
-		for p := range a.Seq {
-			if p != ci {
-				ops = append(ops, vOp{K: "refresh-kept", P: p}, vOp{K: "revert-to", P: p}, vOp{K: "revert-to", P: p, NB: true})
-			}
-			if p != ci || !a.Active {
-				ops = append(ops, vOp{K: "remove-rev", P: p})
-			}
-		}
-		ops = append(ops, vOp{K: "remove-all"}, vOp{K: "disable"}, vOp{K: "enable"}, vOp{K: "set-config"},
-			vOp{K: "set-retain", V: "4"}, vOp{K: "set-retain", V: ""})
-		if thorough {
-			ops = append(ops, vOp{K: "switch", Ch: "other-channel"}, vOp{K: "inhibit"}, vOp{K: "refresh-new", Co: "cohort-y", IV: true})
-		}
-		return ops
-	}
-}
-
-// c10GenShape is the narrower alphabet used to reach deeper sequence shapes: only operations that change
-// the kept revisions, the current one or the revert status, and refresh.retain raised to 4 before the
-// install and dropped back to the default later (more revisions kept than the setting allows).
-func c10GenShape(st vState) []vOp {
-	a := st.A
-	retainSet := strings.Contains(st.Key, " retain=")
-	if !a.Installed {
-		if retainSet {
-			return []vOp{{K: "install"}}
-		}
-		return []vOp{{K: "install"}, {K: "set-retain", V: "4"}}
-	}
-	if !a.Active {
-		return nil
-	}
-	ci := vIndexOf(a.Seq, a.Cur)
-	ops := []vOp{{K: "refresh-new"}}
-	for p := range a.Seq {
-		if p != ci {
-			ops = append(ops, vOp{K: "refresh-kept", P: p}, vOp{K: "revert-to", P: p}, vOp{K: "revert-to", P: p, NB: true})
-		}
-	}
-	if retainSet {
-		ops = append(ops, vOp{K: "set-retain", V: ""})
-	}
-	return ops
-}
-
 type c10Runner struct {
-	r *eng.Run
-	c *C
+	r        *eng.Run
+	c        *C
+	reported map[string]bool
 }
 
 // runOne runs the operation under test on the fixture and returns the result and the differences.
@@ -253,14 +178,6 @@ func c10RunOne(f *vFix, name string, op vOp) (vRes, []c10Diff, vSnap, vSnap, vWo
 	return res, diffs, pre, post, preW, postW
 }
 
-func vIndexOfStr(l []string, s string) int {
-	for i, x := range l {
-		if x == s {
-			return i
-		}
-	}
-	return -1
-}
 
 func c10DiffFields(d []c10Diff) string {
 	var f []string
@@ -287,7 +204,7 @@ func (cr *c10Runner) confirm(path vPath, op vOp, want string, n int) bool {
 	return true
 }
 
-func (cr *c10Runner) checkState(st vState) {
+func (cr *c10Runner) checkState(st vState, onlyOp int) {
 	r, c := cr.r, cr.c
 	name := vSnapA
 	var f *vFix
@@ -352,6 +269,17 @@ func (cr *c10Runner) checkState(st vState) {
 			}
 		}
 		if want != "" {
+			field := "status"
+			if res.Status == "Error" {
+				field = diffs[0].Field
+			}
+			key := fmt.Sprintf("%s:%s:%s:%s", c10OpDesc(op), c10RelTarget(pre, res.Target), c10Phase(op, res), field)
+			if cr.reported[key] {
+				// same canonical finding as one already confirmed and reported by this process
+				r.Add("violations_duplicate_key", 1)
+				rebuild()
+				return res, false
+			}
 			// re-run on fresh fixtures before believing it: first the minimal history, then the actual one
 			cas := c10Case{Path: st.Path, Op: op, Minimal: true, Pre: &pre, Post: &post, PreW: eng.JSON(preW), PostW: eng.JSON(postW), Disc: res.Disc}
 			for _, d := range diffs {
@@ -366,11 +294,7 @@ func (cr *c10Runner) checkState(st vState) {
 				confirmed = cr.confirm(actual, op, want, 3)
 			}
 			if confirmed {
-				field := "status"
-				if res.Status == "Error" {
-					field = diffs[0].Field
-				}
-				key := fmt.Sprintf("%s:%s:%s:%s", c10OpDesc(op), c10RelTarget(pre, res.Target), c10Phase(op, res), field)
+				cr.reported[key] = true
 				msg := fmt.Sprintf("after the failed %s (change %s) the snap is not as before: %s", op, res.Status, strings.Join(cas.Diffs, "; "))
 				r.Violation(key, msg, cas)
 			} else {
@@ -393,7 +317,10 @@ func (cr *c10Runner) checkState(st vState) {
 	}
 
 	withTriggers := r.Thorough() || st.Tag == "full" || st.Tag == "config-per-revision"
-	for _, op := range c10OpsUnderTest(st.A, r.Thorough()) {
+	for oi, op := range c10OpsUnderTest(st.A, r.Thorough()) {
+		if oi != onlyOp {
+			continue
+		}
 		limit := -1
 		for k := 0; limit < 0 || k <= limit; k++ {
 			op.F, op.T = k+1, ""
@@ -423,7 +350,7 @@ func (cr *c10Runner) checkState(st vState) {
 const c10Rule = "states: breadth-first over the generating alphabet to the depth bound, deduplicated on the canonical state key; cases: every state x every operation under test x every splice point 0..check-rerefresh (error-trigger joined to all lanes) + backend triggers; non-trivial = the failure struck after at least one task had completed (something was undone) or a mid-task trigger fired"
 
 func (s *verifC10Suite) TestVerifC10(c *C) {
-	r := eng.Start("C10", "model_checking", 100*time.Second, 14*time.Minute)
+	r := eng.Start("C10", "model_checking", 300*time.Second, 14*time.Minute) // sized for ~30 s on 16 idle cores; the soft budget leaves room for a loaded machine
 	vInitTmp("C10")
 	vPMapWorker(map[string]func(string) string{"expand": vExpandFn(c)})
 	r.Assume("fake backend (fakeSnappyBackend) and fake store of the package's own test fixture stand for the file system and the store; the world (mounted revisions, current link, aliases) is folded from the backend's operation log, unlink removes the current link whatever it points to (as backend.UnlinkSnap does)",
@@ -431,7 +358,7 @@ func (s *verifC10Suite) TestVerifC10(c *C) {
 		"state key merges fixtures that are equal up to a renaming of revisions and up to clock values: snapstate compares store revisions only for equality",
 		"sequential settle: one change at a time, handlers complete in the order the runner starts them (interleavings are C01-C04)",
 		"failed operations that restore the complete state key are followed by the next case on the same fixture (the history then contains the earlier failed operations); every reported mismatch is re-run 3x from a fresh fixture, on the minimal history first")
-	cr := &c10Runner{r: r, c: c}
+	cr := &c10Runner{r: r, c: c, reported: map[string]bool{}}
 
 	if rc := r.ReplayCase(); rc != nil {
 		var cas c10Case
@@ -473,7 +400,7 @@ func (s *verifC10Suite) TestVerifC10(c *C) {
 	rootConfig := []vOp{{K: "install"}, {K: "set-config"}, {K: "refresh-new"}, {K: "set-config"}}
 	var plans []genPlan
 	if r.Quick() {
-		plans = []genPlan{{"full", nil, false, 3}, {"kept4-retain-lowered", rootKept4, true, 1}, {"config-per-revision", rootConfig, false, 0}}
+		plans = []genPlan{{"kept4-retain-lowered", rootKept4, true, 1}, {"config-per-revision", rootConfig, false, 0}, {"full", nil, false, 3}}
 	} else {
 		plans = []genPlan{{"full", nil, false, 5}, {"shape", nil, true, 7}}
 	}
@@ -489,9 +416,9 @@ func (s *verifC10Suite) TestVerifC10(c *C) {
 		var trans int
 		seen := map[string]bool{}
 		for _, pl := range plans {
-			gen := c10Gen(r.Thorough())
+			gen := vGenFull(r.Thorough())
 			if pl.Shape {
-				gen = c10GenShape
+				gen = vGenShape
 			}
 			more, t2 := vBFS("C10", c, []vPath{{Ops: pl.Root}}, gen, pl.Depth, 16)
 			trans += t2
@@ -530,22 +457,31 @@ func (s *verifC10Suite) TestVerifC10(c *C) {
 			eng.HarnessError("cannot read %s: %v", statesFile, err)
 		}
 	}
+	vSetDeadline(r, 300*time.Second, 14*time.Minute)
 	if r.Sharded(16) {
 		os.Remove(statesFile)
 		vFinish(r, c10Rule)
 	}
-	done := 0
-	for i, st := range states {
-		if !r.Mine(i) {
-			continue
+	// work items are (state, operation under test) pairs, dealt round-robin to the shards
+	done, item := 0, 0
+	checked := map[int]bool{}
+	for si, st := range states {
+		for oi := range c10OpsUnderTest(st.A, r.Thorough()) {
+			item++
+			if !r.Mine(item) {
+				continue
+			}
+			if vTimeUp(r) {
+				r.Cap("time", fmt.Sprintf("shard stopped after %d of its (state, operation) items (breadth-first order)", done))
+				vFinish(r, c10Rule)
+			}
+			cr.checkState(st, oi)
+			done++
+			if !checked[si] {
+				checked[si] = true
+				r.Distinct("state_checked", fmt.Sprint(si))
+			}
 		}
-		if r.TimeUp() {
-			r.Cap("time", fmt.Sprintf("shard stopped after %d of its states (breadth-first order)", done))
-			break
-		}
-		cr.checkState(st)
-		done++
-		r.Add("states_checked", 1)
 	}
 	vFinish(r, c10Rule)
 }
